@@ -1,5 +1,9 @@
 mod cli;
+mod genp;
+mod harness;
+mod ops;
 mod prng;
+mod props;
 mod shim;
 mod world;
 
@@ -98,20 +102,79 @@ pub fn seam_selftest() -> Result<(), String> {
     Ok(())
 }
 
+/// Initialise goml's process-global OnceLock caches (builtin AST / env) on a thread whose
+/// hash seeds derive from `seed`, so that "what the first compile of this OS process saw" is a
+/// recorded decision and not an accident of worker scheduling.
+pub fn warm_builtins(seed: u64) {
+    let sb = world::Sandbox::new("warm").expect("sandbox");
+    sb.write("main.gom", b"fn main() -> unit { string_println(\"w\") }\n");
+    let spec = world::ProcSpec { entropy: seed, readdir: seed, ..Default::default() };
+    let r = ops::run_main(&sb, &spec, false);
+    if r.0.class != "compiled" {
+        eprintln!("HARNESS ERROR: warm-up compile failed: {:?}", r.0);
+        std::process::exit(2);
+    }
+}
+
+fn usage() -> ! {
+    eprintln!("usage: sim <c04|c09|c13|c14|c15|c16|selfcheck|replay FILE>");
+    std::process::exit(2)
+}
+
 fn main() {
-    match seam_selftest() {
-        Ok(()) => println!("selftest ok"),
-        Err(e) => { eprintln!("HARNESS ERROR: {e}"); std::process::exit(2) }
+    // quiet panic messages of simulated processes: the default hook writes to fd 2, which the
+    // shim captures per process; nothing to do here.
+    if let Err(e) = seam_selftest() {
+        eprintln!("HARNESS ERROR: {e}");
+        std::process::exit(2);
     }
     let args: Vec<String> = std::env::args().collect();
-    if args.len() > 1 {
-        let sb = world::Sandbox::new("t").unwrap();
-        let src = std::fs::read(&args[1]).unwrap();
-        sb.write("main.gom", &src);
-        let p = sb.path("main.gom");
-        let res = world::run_process(&sb.root, &world::ProcSpec::default(), None, move || {
-            cli::entry(&["goml".into(), "run".into(), "--dump-go".into(), p])
-        });
-        println!("{:?} {}", res.exit, String::from_utf8_lossy(&res.stdout));
+    if args.len() < 2 {
+        usage();
     }
+    let opts = harness::Opts::from_env();
+    let code = match args[1].as_str() {
+        "c13" => {
+            println!("VERIF_SEED={}", opts.seed);
+            warm_builtins(prng::mix(&[opts.seed, prng::purpose("warm")]));
+            props::c13::run(&opts)
+        }
+        "c13-child" => {
+            let warm: u64 = args[2].parse().unwrap();
+            let idx: Vec<usize> = args[3].split(',').filter_map(|x| x.parse().ok()).collect();
+            props::c13::child_digests(&opts, warm, &idx);
+            0
+        }
+        "c13-xproc-one" => {
+            props::c13::xproc_one(&args[2], args[3].parse().unwrap());
+            0
+        }
+        "replay" => {
+            let file: serde_json::Value = match std::fs::read(&args[2]).ok().and_then(|b| serde_json::from_slice(&b).ok()) {
+                Some(v) => v,
+                None => {
+                    eprintln!("HARNESS ERROR: cannot read replay file {}", args[2]);
+                    std::process::exit(2);
+                }
+            };
+            warm_builtins(prng::mix(&[file["seed"].as_u64().unwrap_or(0), prng::purpose("warm")]));
+            let prop = file["property"].as_str().unwrap_or("").to_string();
+            let reproduced = match prop.as_str() {
+                "C13" => props::c13::replay(&file),
+                _ => {
+                    eprintln!("HARNESS ERROR: no replay for property {prop}");
+                    std::process::exit(2);
+                }
+            };
+            if reproduced {
+                println!("VIOLATION property={} replay={}", prop, args[2]);
+                1
+            } else {
+                println!("replay did not reproduce a violation");
+                0
+            }
+        }
+        _ => usage(),
+    };
+    std::process::exit(code);
 }
